@@ -39,6 +39,12 @@ pub enum Kind {
     CopySlice { len: u8 },
     /// `SliceWithHeader<CopyHead, Edge>` completed with `copy_slice`: slot 0 in the header
     CopySwh { len: u8 },
+    /// `Gc<ZTok>`: a zero-sized value with a destructor, allocated through `Gc::new` / `new_static`
+    ZLeaf,
+    /// `SliceWithHeader<SwhHead, u8>`: the header holds a pointer, the elements are plain bytes
+    SwhPod { len: u8 },
+    /// `Gc<Lock<PackedBody>>`: a `repr(packed)` payload (alignment 1) holding a strong and a weak edge
+    CellP,
 }
 
 impl Kind {
@@ -59,12 +65,16 @@ impl Kind {
             Kind::Bag => BAG_STRONG,
             Kind::CopySlice { len } => len as usize,
             Kind::CopySwh { len } => 1 + len as usize,
+            Kind::ZLeaf => 0,
+            Kind::SwhPod { .. } => 1,
+            Kind::CellP => 1,
         }
     }
     pub fn n_weak(self) -> usize {
         use crate::payload::*;
         match self {
             Kind::Bag => BAG_WEAK,
+            Kind::CellP => 1,
             Kind::Node => NODE_WEAK,
             Kind::Field => FIELD_WEAK,
             Kind::Raw => RAW_WEAK,
@@ -80,10 +90,10 @@ impl Kind {
         }
     }
     pub fn has_tok(self) -> bool {
-        !matches!(self, Kind::Cell | Kind::Once | Kind::LeafLock | Kind::SetInner | Kind::Slice { .. } | Kind::Lay { .. } | Kind::ZstShared | Kind::CopySlice { .. })
+        !matches!(self, Kind::Cell | Kind::Once | Kind::LeafLock | Kind::SetInner | Kind::Slice { .. } | Kind::Lay { .. } | Kind::ZstShared | Kind::CopySlice { .. } | Kind::ZLeaf | Kind::CellP)
     }
     pub fn needs_trace(self) -> bool {
-        !matches!(self, Kind::Leaf | Kind::LeafLock | Kind::LeafStatic | Kind::Lay { .. } | Kind::Built { .. } | Kind::ZstShared)
+        !matches!(self, Kind::Leaf | Kind::LeafLock | Kind::LeafStatic | Kind::Lay { .. } | Kind::Built { .. } | Kind::ZstShared | Kind::ZLeaf)
     }
     /// ids an allocation of this kind consumes (the object itself + hidden companions / parts)
     pub fn ids_used(self) -> u32 {
